@@ -72,6 +72,11 @@ def run(check: Check) -> None:
     from .c02 import shapes
 
     shapes(check, only_kernels_of=("Hedge",))  # V9: every kernel returns the broadcast shape of its operands and never mixes their rows / sample points
+    from .c13 import no_inplace_on_handed_values
+    from .common import memoisation_rule
+
+    no_inplace_on_handed_values(check, [f"{c.name}.hedge" for c in check.program.subclasses("Hedge") if "hedge" in c.methods])  # H10
+    memoisation_rule(check)  # H8
     from ..ordertype import describe, flatten, spec_term
 
     p = check.program
